@@ -645,22 +645,52 @@ func checkIntTypestate(p *Prog, r *Report, reach map[*ssa.Function]bool, fc func
 		if h.Fn == nil || len(h.Fn.Params) < 3 {
 			continue
 		}
-		msg := h.Fn.Params[2]
-		if refs := msg.Referrers(); refs != nil {
+		// the request pointer, followed into the module functions it is handed to
+		type mp struct {
+			fn *ssa.Function
+			v  ssa.Value
+		}
+		ptrs := []mp{{h.Fn, h.Fn.Params[2]}}
+		seenPtr := map[ssa.Value]bool{}
+		for len(ptrs) > 0 {
+			cur := ptrs[0]
+			ptrs = ptrs[1:]
+			if seenPtr[cur.v] {
+				continue
+			}
+			seenPtr[cur.v] = true
+			refs := cur.v.Referrers()
+			if refs == nil {
+				continue
+			}
 			for _, u := range *refs {
-				fa, ok := u.(*ssa.FieldAddr)
-				if !ok {
-					continue
-				}
-				if pt, ok := fa.Type().(*types.Pointer); !ok || !isSDKInt(pt.Elem()) {
-					continue
-				}
-				if frefs := fa.Referrers(); frefs != nil {
-					for _, fu := range *frefs {
-						if ld, ok := fu.(*ssa.UnOp); ok && ld.Op == token.MUL {
-							work = append(work, src{h.Fn, ld, "msg." + fieldName(fa) + " of " + h.Name})
+				switch u := u.(type) {
+				case *ssa.FieldAddr:
+					if pt, ok := u.Type().(*types.Pointer); !ok || !isSDKInt(pt.Elem()) {
+						continue
+					}
+					if frefs := u.Referrers(); frefs != nil {
+						for _, fu := range *frefs {
+							if ld, ok := fu.(*ssa.UnOp); ok && ld.Op == token.MUL {
+								work = append(work, src{cur.fn, ld, "msg." + fieldName(u) + " of " + h.Name})
+							}
 						}
 					}
+				case *ssa.UnOp:
+					if u.Op == token.MUL && structHasSDKInt(u.Type()) {
+						r.fail("P-intnil", fmt.Sprintf("P-intnil/%s/whole-copy-of-request", funcName(cur.fn)), p.instrPos(u),
+							"the request (whose amount may be absent = nil math.Int) is copied as a whole: uses of the copy's amount cannot be followed to an IsNil test")
+					}
+				case *ssa.Call:
+					if callee := u.Call.StaticCallee(); callee != nil && p.inModuleCode(callee) && !u.Call.IsInvoke() {
+						for i, a := range u.Call.Args {
+							if a == cur.v && i < len(callee.Params) {
+								ptrs = append(ptrs, mp{callee, callee.Params[i]})
+							}
+						}
+					}
+				case *ssa.Phi:
+					ptrs = append(ptrs, mp{cur.fn, u})
 				}
 			}
 		}
@@ -884,4 +914,17 @@ func (c *FC) ptrNonNilV(v ssa.Value, at ssa.Instruction, depth int, seen map[ssa
 		return c.ptrNonNilV(o.X, at, depth+1, seen)
 	}
 	return true, "address computation, parameter, loaded value or non-nil by construction"
+}
+
+func structHasSDKInt(T types.Type) bool {
+	st, ok := T.Underlying().(*types.Struct)
+	if !ok {
+		return false
+	}
+	for i := 0; i < st.NumFields(); i++ {
+		if isSDKInt(st.Field(i).Type()) || structHasSDKInt(st.Field(i).Type()) {
+			return true
+		}
+	}
+	return false
 }
